@@ -14,7 +14,12 @@ Definition rank_rec : Type := nat * list nat * nat * list Z * list (nat * list n
 
 (* configuration, the records of rank 0..W-1, and the stream of the same sampler
    built with world size 1 (the global draw seen from outside; [] for the semi sampler) *)
-Definition case_t : Type := kcfg * list rank_rec * list nat.
+(* one sampler OBJECT of some rank driven through a call sequence: set_epoch(e) calls and list(sampler) calls, with
+   what every list(sampler) showed (a fresh object: self.epoch = 0 before the first call) *)
+Inductive hop := HSet (e : Z) | HIter (rr : rank_rec).
+Definition hist_t : Type := nat * list hop.
+
+Definition case_t : Type := kcfg * list rank_rec * list nat * hist_t.
 
 Definition replay (ds : list (nat * list nat)) : oracle := fun _ h _ => snd (nth (length h) ds (0, [])).
 Definition code_of (o : outcome (list nat)) : nat := match o with Ok _ => 0 | AssertFail => 1 | Runaway => 2 end.
@@ -32,29 +37,90 @@ Definition model_run (k : kcfg) (ds : list (nat * list nat)) (rnd : list Z) (ran
       else Some (semi_run c 0 0 (replay ds) rank)
   end.
 
+Definition run_agrees (m : run) (rr : rank_rec) : bool :=
+  let '(code, stream, len, seeds, ds, _) := rr in
+  (code_of (r_out m) =? code) &&
+  (if code =? 0
+   then list_eqb Nat.eqb (stream_of (r_out m)) stream && (r_len m =? len)
+        && list_eqb Z.eqb (r_seeds m) seeds && list_eqb Nat.eqb (r_reqs m) (map fst ds)
+   else true).
+
 Definition rank_agrees (k : kcfg) (rank : nat) (rr : rank_rec) : bool :=
-  let '(code, stream, len, seeds, ds, rnd) := rr in
+  let '(_, _, _, _, ds, rnd) := rr in
   match model_run k ds rnd rank with
   | None => false
-  | Some m =>
-      (code_of (r_out m) =? code) &&
-      (if code =? 0
-       then list_eqb Nat.eqb (stream_of (r_out m)) stream && (r_len m =? len)
-            && list_eqb Z.eqb (r_seeds m) seeds && list_eqb Nat.eqb (r_reqs m) (map fst ds)
-       else true)
+  | Some m => run_agrees m rr
   end.
+
+(* --- the object history --- *)
+Definition ops_of (hs : list hop) : list op :=
+  map (fun x => match x with HSet e => SetEpoch e | HIter _ => Iterate end) hs.
+Definition iters_of (hs : list hop) : list rank_rec :=
+  flat_map (fun x => match x with HIter rr => [rr] | HSet _ => [] end) hs.
+
+(* generator determinism: the draws of a generator are a function of its seed and the requests made on it, and so is
+   the value of random_() on a fresh generator.  The replay oracle of a history is keyed by the seed of the drawing
+   generator (the last manual_seed of a call): the draws recorded for the FIRST call that seeded so; rnd is keyed by
+   the seeds of the two auxiliary generators of SemiSampler (rank, epoch). *)
+Definition seed_table (recs : list rank_rec) : list (Z * list (nat * list nat)) :=
+  flat_map (fun rr : rank_rec => let '(_, _, _, seeds, ds, _) := rr in
+                                 match rev seeds with s :: _ => [(s, ds)] | [] => [] end) recs.
+Definition replay_by_seed (tab : list (Z * list (nat * list nat))) : oracle :=
+  fun seed h _ => match find (fun e => Z.eqb (fst e) seed) tab with
+                  | Some (_, ds) => snd (nth (length h) ds (0, []))
+                  | None => []
+                  end.
+Definition rnd_table (recs : list rank_rec) : list (Z * Z) :=
+  flat_map (fun rr : rank_rec => let '(_, _, _, seeds, _, rnd) := rr in
+                                 match seeds, rnd with
+                                 | [r; e; _], [vr; ve] => [(r, vr); (e, ve)]
+                                 | _, _ => []
+                                 end) recs.
+Definition rnd_of (tab : list (Z * Z)) : Z -> Z :=
+  fun x => match find (fun e => Z.eqb (fst e) x) tab with Some (_, v) => v | None => 0%Z end.
+
+Definition model_object (k : kcfg) (recs : list rank_rec) (rank : nat) (ops : list op) : list run :=
+  let draw := replay_by_seed (seed_table recs) in
+  match k with
+  | KCB c => cb_object (cb_set_epoch c 0) draw rank ops
+  | KW c => w_object (w_set_epoch c 0) draw rank ops
+  | KSemi c => semi_object (se_set_epoch c 0) (rnd_of (rnd_table recs)) draw rank ops
+  end.
+
+Definition hist_agrees (k : kcfg) (h : hist_t) : bool :=
+  let '(rank, hs) := h in
+  let recs := iters_of hs in
+  let ms := model_object k recs rank (ops_of hs) in
+  (length ms =? length recs) && forallb (fun '(m, rr) => run_agrees m rr) (combine ms recs).
+
+Definition cfg_epoch (k : kcfg) : Z :=
+  match k with KCB c => cb_epoch c | KSemi c => se_epoch c | KW c => w_epoch c end.
+
+(* spec of a history, on the implementation's output only: every list(sampler) call has len(sampler) = L entries;
+   two calls under the same epoch show the same stream; a call under the case's epoch shows the stream of the fresh
+   sampler of that rank *)
+Definition hist_spec (k : kcfg) (L : nat) (streams : list (list nat)) (h : hist_t) : bool :=
+  let '(rank, hs) := h in
+  let tagged := combine (iter_epochs 0 (ops_of hs)) (iters_of hs) in
+  forallb (fun '(e1, (_, st1, len1, _, _, _)) =>
+             (len1 =? L) && (length st1 =? L) &&
+             (if Z.eqb e1 (cfg_epoch k) then list_eqb Nat.eqb st1 (nth rank streams []) else true) &&
+             forallb (fun '(e2, (_, st2, _, _, _, _)) => if Z.eqb e1 e2 then list_eqb Nat.eqb st1 st2 else true) tagged)
+          tagged.
 
 Definition world (k : kcfg) : nat := match k with KCB c => cb_W c | KSemi c => se_W c | KW c => w_W c end.
 
 Definition spec_mode (m : lmode) : length_mode :=
   match m with MLabeled => ByLabeled | MUnlabeled => ByUnlabeled | _ => ByAll end.
 
-Definition spec_holds (k : kcfg) (recs : list rank_rec) (G : list nat) : bool :=
+Definition spec_holds (k : kcfg) (recs : list rank_rec) (G : list nat) (h : hist_t) : bool :=
   let streams := map (fun '(_, st, _, _, _, _) => st) recs in
   let L := match recs with (_, _, len, _, _, _) :: _ => len | [] => 0 end in
   let W := world k in
   (* every rank reports the same len(sampler) and yields exactly that many indices *)
   forallb (fun '(_, st, len, _, _, _) => (len =? L) && (length st =? L)) recs &&
+  (* one object over several epochs / iterated again *)
+  (if forallb (fun '(code, _, _, _, _, _) => code =? 0) (iters_of (snd h)) then hist_spec k L streams h else true) &&
   match k with
   | KCB c =>
       let classes := cb_classes c in
@@ -82,9 +148,10 @@ Definition spec_holds (k : kcfg) (recs : list rank_rec) (G : list nat) : bool :=
    implementation; 2 = the spec is false of the implementation's output
    (whether or not the model agrees) *)
 Definition check (t : case_t) : nat :=
-  let '(k, recs, G) := t in
-  if forallb (fun '(code, _, _, _, _, _) => code =? 0) recs && negb (spec_holds k recs G) then 2
+  let '(k, recs, G, h) := t in
+  if forallb (fun '(code, _, _, _, _, _) => code =? 0) recs && negb (spec_holds k recs G h) then 2
   else if negb ((length recs =? world k) &&
-                forallb (fun '(rank, rr) => rank_agrees k rank rr) (combine (seq 0 (length recs)) recs))
+                forallb (fun '(rank, rr) => rank_agrees k rank rr) (combine (seq 0 (length recs)) recs) &&
+                hist_agrees k h)
   then 1
   else 0.
